@@ -622,8 +622,12 @@ func encCase(o *hx.Out, cat string, m chat.Message) {
 	js, jerr := json.Marshal(m)
 	nontrivial := m.Translate != "" || len(m.Extra) > 0 || m.HoverEvent != nil
 	if err != nil || pan != "" || jerr != nil || nerr != nil {
-		o.Case(cat, nontrivial, line, fmt.Sprintf("enc err nbt=%v/%s json=%v named=%v", err, pan, jerr, nerr))
-		o.Fail("C17.encode.error", "m=%s nbt=%v panic=%q json=%v named=%v", showMsg(m), err, pan, jerr, nerr)
+		o.Case(cat, nontrivial, line, "enc err")
+		cls := "C17.encode.error"
+		if mixedArgs(m) && pan == "" && jerr == nil {
+			cls = "C17.nbt.mixed-args"
+		}
+		o.Fail(cls, "m=%s nbt=%v panic=%q json=%v named=%v", showMsg(m), err, pan, jerr, nerr)
 		return
 	}
 	jt, perr := parseJSON(js)
@@ -758,10 +762,14 @@ func typeCase(o *hx.Out, cat string, id int32, sender chat.Message, target *chat
 		}
 		res = fmt.Sprintf("ok %d %s %s %d", back.ID, showMsg(back.SenderName), bt, rd.Len()-len(tail))
 	}
-	o.Case(cat, target != nil, fmt.Sprintf("type %d %s %s", id, showMsg(sender), ts), fmt.Sprintf("type %s | %s", hx.Hex(b), res))
-	if mixedArgs(sender) || (target != nil && mixedArgs(*target)) {
+	if err != nil {
+		o.Case(cat, target != nil, fmt.Sprintf("type %d %s %s", id, showMsg(sender), ts), "type err")
+		if !(mixedArgs(sender) || (target != nil && mixedArgs(*target))) {
+			o.Fail("C17.type.encode.error", "id=%d sender=%s target=%s err=%v", id, showMsg(sender), ts, err)
+		}
 		return
 	}
+	o.Case(cat, target != nil, fmt.Sprintf("type %d %s %s", id, showMsg(sender), ts), fmt.Sprintf("type %s | %s", hx.Hex(b), res))
 	good := err == nil && rerr == nil && pan == "" && int(n) == len(b) && int(n2) == len(b) && rd.Len() == len(tail) &&
 		back.ID == id && sameMsg(back.SenderName, sender) && (target == nil) == (back.TargetName == nil) &&
 		(target == nil || sameMsg(*back.TargetName, *target))
